@@ -357,7 +357,10 @@ func (c *TCPconnect) HandleConn(ctx context.Context, conn net.Conn) {
 
 			n, err := frameBuffer.b.Read(rawFrame)
 
-			frame := rawFrame[:n]
+			// copy: rawFrame is overwritten by the next flush while
+			// receivers may still be holding this message
+			frame := make([]byte, n)
+			copy(frame, rawFrame[:n])
 
 			frameBuffer.b.Reset()
 
